@@ -606,7 +606,7 @@ func histAlts(c *core.Ctx, sb *sandbox, res *core.ShardResult, wl *core.WLog) {
 	}
 	maxLen := c.Q(6, 7)
 	wl.Block(0)
-	count := 0
+	count, mine := 0, 0
 	for ci, cb := range combos {
 		var all []string
 		for _, t := range cb.shape.Tasks {
@@ -662,7 +662,7 @@ func histAlts(c *core.Ctx, sb *sandbox, res *core.ShardResult, wl *core.WLog) {
 					continue
 				}
 				h := hcase{Shape: cb.shape, Alts: []hshape{cb.alt}, Ops: append(append([]hop{}, prefix...), ops...), Via: "inproc"}
-				if count%256 == 0 {
+				if mine++; mine%128 == 0 {
 					wl.Tick()
 				}
 				if !wl.Begin(0, count, func() any { return h }) {
@@ -715,7 +715,7 @@ func histInPlace(c *core.Ctx, sb *sandbox, res *core.ShardResult, wl *core.WLog)
 	maxLen := c.Q(6, 7)
 	n := len(alphabet)
 	wl.Block(0)
-	count := 0
+	count, mine := 0, 0
 	for length := 2; length <= maxLen; length++ {
 		total := 1
 		for i := 0; i < length-1; i++ {
@@ -742,7 +742,7 @@ func histInPlace(c *core.Ctx, sb *sandbox, res *core.ShardResult, wl *core.WLog)
 				continue
 			}
 			h := hcase{Shape: inPlaceShape, Ops: ops, Via: "inproc", InPlace: true}
-			if count%512 == 0 {
+			if mine++; mine%128 == 0 {
 				wl.Tick()
 			}
 			if !wl.Begin(0, count, func() any { return h }) {
